@@ -83,6 +83,7 @@ enum KOp {
 }
 
 fn stream_k_case(w: &mut CasesWriter, r: &mut Rng, nops: usize, forced: Option<Vec<KOp>>) {
+    WATCHDOG.with(|wd| wd.tick("stream K"));
     let vs = VirtualSystem::new();
     let state = Rc::clone(&vs.state);
     let sched = Sched::new();
@@ -375,7 +376,12 @@ struct SRun {
     info: SchedInfo,
 }
 
+thread_local! {
+    static WATCHDOG: sched::Watchdog = sched::Watchdog::start(Duration::from_secs(60));
+}
+
 fn run_script(script: &str, policy: Policy) -> SRun {
+    WATCHDOG.with(|wd| wd.tick(script));
     let (o, info) = run_shell_sched(
         RunOpts { argv: vec!["-c".into(), script.into()], ..Default::default() },
         |env, _| install(env),
@@ -462,7 +468,7 @@ fn gen_inner(r: &mut Rng, depth: usize, var: &mut usize) -> String {
         2 => format!("work {} {} ; echo $?", r.below(3), r.below(4)),
         3 => format!("( work {}; echo {word} ) | cat", r.below(3)),
         4 => format!("work {} {} & wait $!; echo $?", r.below(3), *r.pick(&[0, 3, 9])),
-        5 => format!("echo \"$({})\"", gen_inner(r, depth - 1, var)),
+        5 => format!("echo \"$( {} )\"", gen_inner(r, depth - 1, var)),
         6 => format!(
             "{{ work {}; echo {word}; }} | {{ work {}; cat; }} | cat",
             r.below(3),
@@ -485,7 +491,7 @@ fn gen_nested(r: &mut Rng) -> String {
             2..=3 => {
                 let v = var;
                 var += 1;
-                s.push_str(&format!("v{v}=$({})\nargs \"$?\" \"$v{v}\"\n", gen_inner(r, 2, &mut var)));
+                s.push_str(&format!("v{v}=$( {} )\nargs \"$?\" \"$v{v}\"\n", gen_inner(r, 2, &mut var)));
             }
             4 => {
                 let v = var;
@@ -633,7 +639,7 @@ fn main() {
         return;
     }
     let mut rng = Rng::new(args.seed);
-    let mut w = CasesWriter::new(&args, "Yv.C13.Run", 25);
+    let mut w = CasesWriter::new(&args, "Yv.C13.Run", args.scale(25, 150));
 
     // ---- corpus -----------------------------------------------------------------
     {
